@@ -20,7 +20,7 @@ class AstError(Exception):
 
 def dump(tu, flt, outdir):
     """run clang on REPO/<tu>, return path of the JSON dump"""
-    src = os.path.join(REPO, tu)
+    src = tu if os.path.isabs(tu) else os.path.join(REPO, tu)      # absolute: compile-only glue under /verif/tus
     out = os.path.join(outdir, 'ast_%s_%s.json' % (os.path.basename(tu).replace('.', '_'), flt))
     cmd = [CLANG] + FLAGS + ['-Xclang', '-ast-dump=json', '-Xclang', '-ast-dump-filter=' + flt, src]
     with open(out, 'w') as f:
